@@ -269,6 +269,37 @@ theorem update_maintains {le : κ → κ → Bool} (ho : Order le) (keyOf : Row 
       (tbl.filter (fun r => r.1 != rid) ++ [(rid, row')]) :=
   insert_maintains ho keyOf _ _ (delete_maintains keyOf idx tbl h rid) (rid, row')
 
+/-- the DML statements as they reach one index of one table -/
+inductive IOp where
+  | ins (r : Nat × Row)
+  | del (rid : Nat)
+  | upd (rid : Nat) (row' : Row)
+
+/-- table and index after one statement, each maintained by its own code path -/
+def applyIOp (le : κ → κ → Bool) (keyOf : Row → κ) (st : List (Entry κ) × RTable) :
+    IOp → List (Entry κ) × RTable
+  | .ins r => (idxInsert le (entryOf keyOf r) st.1, st.2 ++ [r])
+  | .del rid => (idxDelete rid st.1, st.2.filter (fun r => r.1 != rid))
+  | .upd rid row' => (idxInsert le (entryOf keyOf (rid, row')) (idxDelete rid st.1),
+      st.2.filter (fun r => r.1 != rid) ++ [(rid, row')])
+
+/-- **index = table after every history**: starting from any table with a correct index (e.g. a
+freshly created one, `derive_isIndex`), after ANY sequence of INSERT / DELETE / UPDATE statements
+the incrementally maintained index is still exactly an index of the table -/
+theorem maintained_any_history {le : κ → κ → Bool} (ho : Order le) (keyOf : Row → κ)
+    (ops : List IOp) : ∀ (idx : List (Entry κ)) (tbl : RTable), IsIndex le keyOf idx tbl →
+    IsIndex le keyOf (ops.foldl (applyIOp le keyOf) (idx, tbl)).1
+      (ops.foldl (applyIOp le keyOf) (idx, tbl)).2 := by
+  induction ops with
+  | nil => intro idx tbl h; exact h
+  | cons op ops ih =>
+    intro idx tbl h
+    simp only [List.foldl_cons]
+    cases op with
+    | ins r => exact ih _ _ (insert_maintains ho keyOf idx tbl h r)
+    | del rid => exact ih _ _ (delete_maintains keyOf idx tbl h rid)
+    | upd rid row' => exact ih _ _ (update_maintains ho keyOf idx tbl h rid row')
+
 /-- CREATE INDEX (derive) and DROP INDEX change no table; a query through the freshly derived
 index answers like the full scan -/
 theorem create_index_no_effect {le : κ → κ → Bool} (ho : Order le) (keyOf : Row → κ)
